@@ -67,7 +67,7 @@ static int setup_input(pipe_type *pipe, const uint8_t *data, size_t size)
     return r;
   }
 
-  while (written < size) {
+  while (written < size) REPROC_VERIF_LOOP(setup_input) {
     r = pipe_write(*pipe, data + written, size - written);
     if (r < 0) {
       return r;
